@@ -106,8 +106,23 @@ type vHSConfig struct {
 }
 
 func vNewParty(initiator bool, priv *btcec.PrivateKey, remote *btcec.PublicKey, pw, auth []byte, min, max byte) (*vParty, error) {
+	return vNewPartyECDH(initiator, priv, &keychain.PrivKeyECDH{PrivKey: priv}, remote, pw, auth, min, max)
+}
+
+// vImpostorECDH presents the public key `claimed` as its static key but can
+// only compute Diffie-Hellman results with its own, different private key.
+type vImpostorECDH struct {
+	claimed *btcec.PublicKey
+	own     *keychain.PrivKeyECDH
+}
+
+func (v *vImpostorECDH) PubKey() *btcec.PublicKey { return v.claimed }
+
+func (v *vImpostorECDH) ECDH(pub *btcec.PublicKey) ([32]byte, error) { return v.own.ECDH(pub) }
+
+func vNewPartyECDH(initiator bool, priv *btcec.PrivateKey, ecdh keychain.SingleKeyECDH, remote *btcec.PublicKey, pw, auth []byte, min, max byte) (*vParty, error) {
 	p := &vParty{priv: priv}
-	p.cd = NewConnData(&keychain.PrivKeyECDH{PrivKey: priv}, remote, pw, auth,
+	p.cd = NewConnData(ecdh, remote, pw, auth,
 		func(k *btcec.PublicKey) error { p.gotRemote = k; p.remoteCalls++; return nil },
 		func(d []byte) error { p.gotAuth = d; p.authCalls++; return nil })
 	m, err := NewBrontideMachine(&BrontideMachineConfig{
